@@ -718,8 +718,70 @@ def plot_oracle(desc, i, st, plot, stats):
     return out
 
 
+def run_scale(desc):
+    """The scale probe: one circuit with more direct operations than the documented graph *depth* limit (5000) while
+    being far shallower than it (n operations spread over `qubits` chains). Only C02's listing statements are
+    checked (by identity, no model, no replays): every added operation listed exactly once, nothing else listed, never
+    before the operation its relation refers to, twice the same, last entry listed. Reading times at this size is
+    not part of it (a time query on a relation chain of more than about 250 steps ends in Python's recursion limit,
+    on the original tree too: an exception, never a wrong answer)."""
+    import warnings
+    t0 = time.time()
+    L = WORLD.lib
+    n, nq = int(desc["scale"]["n"]), int(desc["scale"]["qubits"])
+    WORLD.reset()
+    findings = []
+    with warnings.catch_warnings():
+        warnings.simplefilter("ignore")
+        c = L.DeclarativeCircuit()
+        added = []
+        for i in range(n):
+            q = i % nq
+            if i % 3 == 0:
+                o = L.kind_class["Rx180"](qubit_index=q)
+            elif i % 3 == 1:
+                o = L.kind_class["Ry90"](qubit_index=q)
+            else:
+                o = L.kind_class["Wait"](qubit_index=q, duration_strategy=L.FixedDurationStrategy(0.5))
+            added.append(c.add(o))
+        ops = list(c.operations)
+        again = list(c.operations)
+        try:
+            last = c.get_last_entry()
+        except Exception:
+            last = None
+    pos = {}
+    dup = 0
+    for i, o in enumerate(ops):
+        if id(o) in pos:
+            dup += 1
+        pos.setdefault(id(o), i)
+    missing = [i for i, o in enumerate(added) if id(o) not in pos]
+    foreign = len(ops) - dup - (len(added) - len(missing))
+    if missing or dup or foreign:
+        findings.append(oracles.F(["C02"], "scale:added-operations-not-listed-exactly-once", n=n, listed=len(ops), missing=len(missing),
+                                  first_missing=missing[:3], duplicates=dup, foreign=foreign))
+    for i, o in enumerate(ops):
+        ref = o.relation_link.reference_node
+        if ref is not None and id(ref) in pos and pos[id(ref)] > i:
+            findings.append(oracles.F(["C02"], "scale:listed-before-its-reference", n=n, position=i, reference_position=pos[id(ref)]))
+            break
+    if len(ops) != len(again) or any(a is not b for a, b in zip(ops, again)):
+        findings.append(oracles.F(["C02"], "scale:listing-not-stable", n=n))
+    if last is None or id(last) not in pos or last is not added[-1]:
+        findings.append(oracles.F(["C02"], "scale:last-entry-not-listed", n=n))
+    for f in findings:
+        f["point"] = 0
+    WORLD.reset()
+    dg = canon.jdigest({"scale": desc["scale"], "findings": [[f["oracle"], f["detail"]] for f in findings], "listed": len(ops)})
+    return {"findings": findings, "stats": {"steps": n, "points": 1, "wall": time.time() - t0, "fired": [], "armed_unfired": 0,
+                                            "probes": {"scale-probe": 1}}, "digest": dg, "checked_points": 1}
+
+
 def run_descriptor(desc, max_points=12):
     """Execute one run descriptor. Returns dict(findings, stats, digest)."""
+    if desc.get("scale"):
+        return run_scale(desc)
     t0 = time.time()
     steps = desc["steps"]
     stats = {"steps": len(steps)}
